@@ -146,6 +146,9 @@ def run(ctx):
         ctx.rule('ELEMKEEP', 'batch de-duplication hands every input vertex on or drops it behind a duplicate verdict')
         elemkeep.check(ctx, cfg, prog, ctx.mod(cfg), 'ELEMKEEP')
         elemkeep.check_orderings(ctx, cfg, prog, ctx.mod(cfg), 'ELEMKEEP')
+        import statsync
+        ctx.rule('STATSYNC', 'the per-insertion statistics record the same outcome that is reported (per build profile)')
+        statsync.check(ctx, cfg, prog, 'STATSYNC')
     ctx.note('TopologyGuarantee::Pseudomanifold has no Level-3 gate at completion (relies on ValidationPolicy::DebugOnly, '
              'i.e. nothing in release): observation, not a rule')
     return ctx.finish(EXPLANATION)
